@@ -360,6 +360,7 @@ type World struct {
 
 	Escaped    any    // panic value that escaped Check (other than the TB sentinel)
 	EscapedStr string
+	EscapedStack string
 	StopWhy    string // how Check left: "return", "failnow", ...
 	CtxAtEnd   []bool // filled by the bubble wrapper
 }
